@@ -1,7 +1,7 @@
 (* C27 - lemmas over Model/C27Inherit.v: the sets Pony computes while classes are defined are the transitive closure of the
    direct-base relation and its inverse; discriminator criteria, reload class and isinstance follow. *)
 From Coq Require Import ZArith List Bool Lia.
-Require Import PonyV.Base.PyBase PonyV.Model.C27Inherit.
+Require Import PonyV.Base.PyBase PonyV.Model.C27Inherit PonyV.Gen.C27AttrGet.
 #[local] Open Scope nat_scope.
 
 (* e is a proper ancestor of c: transitive closure of "e is a direct base of c" *)
@@ -419,3 +419,27 @@ Lemma refine_sibling_types : refine s_abcd 1 2 = None /\ family s_abcd 1 3 /\ fa
 Proof.
   repeat split; try reflexivity; right; apply (all_bases_anc s_abcd (proj1 seed_sibling_hides)); cbn; auto.
 Qed.
+
+(* ------------------------------------------------------------------ reading a reference attribute *)
+Lemma attr_get_refines s : valid s = true -> forall cur seed real, family s cur real -> (seed = false -> cur = real) ->
+  attr_get_class s true cur seed real = Some real.
+Proof.
+  intros Hv cur seed real Hf Hns. unfold attr_get_class.
+  destruct (subclasses s cur) as [|c0 cs] eqn:Es.
+  - f_equal. destruct Hf as [->|Ha]; [reflexivity|]. apply (subclasses_anc s Hv) in Ha. rewrite Es in Ha. contradiction.
+  - destruct seed; [now apply refine_exact | now rewrite (Hns eq_refl)].
+Qed.
+
+(* the value fetched by attr.load takes the guarded path in the current source *)
+Lemma attr_get_source_guarded : attr_get_loaded_value_reaches_guard = true.
+Proof. reflexivity. Qed.
+
+Lemma attr_get_loaded_refines s : valid s = true -> forall cur real, family s cur real ->
+  attr_get_class s attr_get_loaded_value_reaches_guard cur true real = Some real.
+Proof. intros Hv cur real Hf. rewrite attr_get_source_guarded. now apply attr_get_refines. Qed.
+
+(* witnesses: the placeholder of a K3 object typed K0 is handed out as K0 by collection iteration and after unpickling *)
+Lemma collection_item_unrefined : collection_item_class 0 3 <> 3 /\ family s_abcd 0 3.
+Proof. split; [discriminate|]. right. apply (all_bases_anc s_abcd (proj1 seed_sibling_hides)). cbn. auto. Qed.
+Lemma unpickled_ref_unrefined : unpickled_ref_class 0 3 <> 3.
+Proof. discriminate. Qed.
